@@ -1,5 +1,6 @@
 """C04 probe: drive REST cells through the HTTP seam; invert what the server saw."""
 import itertools
+import re
 import json
 
 from google.api import annotations_pb2, field_behavior_pb2
@@ -40,8 +41,14 @@ def main(p):
                    json_format.MessageToJson(Resp(ok=False), use_integers_for_enums=numeric) + ']').encode()
 
     def fail(cell, val, kind, detail, sub=''):
-        if len(out['failures']) < 600:
-            out['failures'].append(dict(cell=cell['id'], val=val, kind=kind, detail=str(detail)[:500], sub=sub))
+        cause = None
+        m = re.match(r'path#(\d+)', val)
+        if m and int(m.group(1)) >= len(STAR_PALETTE) and a.get('thorough'):
+            # thorough palette: path-variable values containing URL-significant characters (DESIGN 9/D14)
+            ch = STAR_PALETTE_THOROUGH[int(m.group(1)) - len(STAR_PALETTE)]
+            cause = 'path-value-containing:' + {'q?r': 'question-mark', 'h#i': 'hash', 'p%q': 'percent', 'line\tfeed': 'tab'}[ch]
+        if len(out['failures']) < 3000:
+            out['failures'].append(dict(cell=cell['id'], val=val, kind=kind, detail=str(detail)[:500], sub=sub, cause=cause))
         out['outcomes'][kind] = out['outcomes'].get(kind, 0) + 1
 
     def set_var(msg, var, sub, k):
